@@ -12,6 +12,7 @@ from collections import defaultdict
 from .. import oracle as O
 from ..core import Stats, pmap
 from ..hist import fork_call
+from fractions import Fraction as F
 from . import decl, c15, c11
 
 VALID = ['B1', 'B2', 'N1', 'S', 'V', 'P', 'NB', 'x1', 'y1', 'x1/y1', 'x1²',
@@ -40,6 +41,17 @@ def explore(names, depth, total, root):
                                 'rejected-step',
                                 f"after {root} + {rec['h'][:-1]}: {msg}",
                                 {'root': root, 'history': rec['h']})
+        if not rec['ok']:
+            # the directory is checked after every step; an incoherence that
+            # shows right after a rejected step was left by that step
+            for sig, msg in rec['viol']:
+                if sig.startswith('C15:') and not sig.startswith(
+                        ('C15:invalid-declaration-accepted',
+                         'C15:rejection-error-class')):
+                    total.violation('C16:rejected-step-left-trace:'
+                                    'directory-incoherent',
+                                    f"after {root} + {rec['h']}: {msg}",
+                                    {'root': root, 'history': rec['h']})
         if not rec['ok'] and rec['parent_fp'] is not None and \
                 rec['fp'] != rec['parent_fp']:
             name = rec['h'][-1]
@@ -86,6 +98,8 @@ def replay(case):
         return c11.replay({'history': case['converter']})
     if 'iso_code_attempts' in case:
         return fork_call(iso_code_attempts)
+    if 'rejected_update_keeps_mode' in case:
+        return fork_call(rejected_update_keeps_mode)
 
     def run():
         out = []
@@ -205,9 +219,59 @@ def iso_code_attempts():
     return out
 
 
+def rejected_update_keeps_mode():
+    """(fork) a rejected ExchangeRate / converter update must not leave the
+    configured default rounding mode changed"""
+    from datetime import date
+    from quantity.money import Money, MoneyConverter, ExchangeRate
+    eur = Money.register_currency('EUR')
+    usd = Money.register_currency('USD')
+    gbp = Money.register_currency('GBP')
+    out = []
+    attempts = [
+        ('update(None, [(GBP, 0.85, 1), (USD, 0, 1)])',
+         lambda c: c.update(None, [(gbp, O.dec('D:0.85'), 1), (usd, 0, 1)])),
+        ('update(None, [(USD, 1.1, 0)])',
+         lambda c: c.update(None, [(usd, O.dec('D:1.1'), 0)])),
+        ('update("x", [(USD, 1.1, 1)])',
+         lambda c: c.update('x', [(usd, O.dec('D:1.1'), 1)])),
+        ('ExchangeRate(EUR, 1, USD, -2)',
+         lambda c: ExchangeRate(eur, 1, usd, -2)),
+        ('ExchangeRate(EUR, 1.5, USD, 2)',
+         lambda c: ExchangeRate(eur, O.dec('D:1.5'), usd, 2)),
+        ('ExchangeRate(EUR, 1, EUR, 2)',
+         lambda c: ExchangeRate(eur, 1, eur, 2)),
+    ]
+    for mode in O.MODES:
+        for what, f in attempts:
+            O.set_mode(mode)
+            conv = MoneyConverter(eur, lambda: date(2020, 1, 1))
+            conv.update(None, [(usd, O.dec('D:2.5'), 1)])
+            try:
+                f(conv)
+                rejected = False
+            except Exception:
+                rejected = True
+            now = O.get_mode()
+            tie = O.fr(Money(O.dec('D:0.125'), eur).amount)
+            want = O.round_to(F(1, 8), F(1, 100), mode)
+            O.set_mode('ROUND_HALF_EVEN')
+            if rejected and (now != mode or tie != want):
+                out.append(('C16:rejected-rate-changed-rounding-mode',
+                            f"default mode {mode}: after the rejected {what} "
+                            f"the default mode is {now} and Money(0.125, "
+                            f"EUR) = {tie} (expected {want})"))
+    return out
+
+
 def run(tier, seed):
     total = Stats()
     counts = {}
+    total.paths += 48
+    total.transitions += 48
+    total.evaluations += 96
+    for sig, msg in fork_call(rejected_update_keeps_mode):
+        total.violation(sig, msg, {'rejected_update_keeps_mode': True})
     total.paths += 5
     total.transitions += 5
     total.evaluations += 15
